@@ -83,3 +83,36 @@ def str_strip(s):
 
 def lib_text(fn_name, value):
     return (fn_name, repr(value))
+
+
+def lemma(fact):
+    """proof hint inside a clause: `fact` becomes a separate (supporting) obligation under the clause's current
+    hypotheses and is then available to the clause's own obligation.  Natively it must simply hold."""
+    return bool(fact)
+
+
+def all_of(*facts):
+    """conjunction whose operands are all evaluated (no short-circuit): one formula, no case split"""
+    return all(bool(f) for f in facts)
+
+
+def any_of(*facts):
+    return any(bool(f) for f in facts)
+
+
+def seq_take(xs, n):
+    """xs[:n] for n >= 0"""
+    assert n >= 0
+    return xs[:n]
+
+
+def seq_drop(xs, n):
+    """xs[n:] for n >= 0"""
+    assert n >= 0
+    return xs[n:]
+
+
+def seq_slice(xs, lo, hi):
+    """xs[lo:hi] for lo >= 0"""
+    assert lo >= 0
+    return xs[lo:hi] if hi >= lo else xs[0:0]
